@@ -230,9 +230,12 @@ fn replay_cmd(path: &str) -> i32 {
     if let Some(h) = &file.history {
         return replay_history(path, &file, h);
     }
+    // The cap is per build (see the heartbeat in case::execute); a replay has no heartbeat, so
+    // it gets the cap once plus a second per build of the case.
+    let builds: u64 = file.case.builds.iter().map(|b| b.repeat.max(1) as u64).sum();
     let (code, out) = supervisor::run_child(
         &["replay-inner", path],
-        supervisor::CASE_WALL_CLOCK_CAP + Duration::from_secs(5),
+        supervisor::CASE_WALL_CLOCK_CAP + Duration::from_secs(5 + builds),
     );
     let (class, detail, signature) = match code {
         Some(0) => {
